@@ -680,3 +680,11 @@ func trunc(b []byte, n int) []byte {
 	}
 	return b
 }
+
+// Register makes props known to TestReplay from an init function (for props
+// that live in a file of their own).
+func Register(props ...Registrar) {
+	for _, p := range props {
+		p.register()
+	}
+}
